@@ -11,6 +11,8 @@ NEEDS = ('icontract',)
 RULE = ('A case is one conversion: a generated RP66V1 / LIS / BIT source (independent encoders, random physical layout) x one frame selector '
         '(Slice with absent / negative / beyond-the-end parts and steps 1..n, or Sample(N)) x channel subset (all, random subset, subset '
         'without the X axis, unknown names) x reduction x field width x decimal format, run through the real single-file converter.  '
+        'Per shard a few sources are long logs (128..1100 frames) or hold more than ten log passes; a third of the RP66V1 sources draw '
+        'their names from a small shared pool; selectors include bounds beyond 2^31 / 2^63.  '
         'Every LAS written is read by an independent tokenizer (and by LASRead for readability) and compared with the model: one file '
         'per log pass, rows = selected frames, columns = X + requested channels, values within print precision, STRT/STOP/STEP = first X, '
         'last X, mean spacing of the rows written.  Distinct by (source bytes, options); non-trivial = step > 1 or a sample smaller '
@@ -21,7 +23,9 @@ ASSUMPTIONS = [
     'RP66V1 sources carry a populated defining ORIGIN (CREATION-TIME, well attributes) and FILE-HEADER ID, which the LAS header needs; no encrypted records',
     'BIT values are compared with the exact IBM value within 2e-7 relative (the 6e-8 decoder error is finding F10 of C13, not counted twice)',
     'value tolerance: half a unit of the last printed decimal, plus 2.1*u*sum|x| for mean/median of multi-valued channels (u = unit roundoff of the channel type)',
-    'a fresh channel set is passed to every conversion (the converter adds the X axis name to the set it is given)',
+    'a share of the conversions (RP66V1, BIT) is handed the selector object and the channel set object of the previous conversion, as the '
+    'directory drivers do for every file of a batch; the expected columns are computed from the names the harness put into that set',
+    'field widths 2..32; float formats .Nf, .N, .Ng, .Ne with N in 0..15 ("every decimal format" is read as every format of that family)',
     'LIS: channels are requested by the mnemonic as the LIS tools print it; the absent value is not substituted',
 ]
 MECHANISMS = [
@@ -63,6 +67,11 @@ def random_selector(rng, n, negative=False):
         a = rng.choice([None, None, 0, 1, 2, rng.randrange(-n - 2, n + 2)])
         b = rng.choice([None, None, n, n - 1, n + 5, rng.randrange(-n - 2, n + 3)])
         c = rng.choice([None, 1, 1, 2, 2, 3, 4, 5, 7, max(1, n - 1), n + 1, rng.randrange(1, n + 2)])
+        # bounds far outside the log (as a user writes "everything from / up to"): beyond 32 and 64 bit integers
+        if rng.random() < 0.04:
+            b = rng.choice([2 ** 31, 2 ** 63, 10 ** 30])
+        if rng.random() < 0.03:
+            a = rng.choice([-2 ** 31, -2 ** 63 - 1, -10 ** 30])
         if len(range(n)[slice(a, b, c)]) >= 1:
             return 'slice', (a, b, c)
     return 'slice', (None, None, None)
@@ -365,7 +374,30 @@ def decimals_of(fmt):
     return int(fmt[1:-1]) if fmt[-1] in 'fge' else int(fmt[1:])
 
 
-FLOAT_FORMATS = ['.0f', '.1f', '.3f', '.3f', '.3f', '.6f', '.8f', '.3', '.5', '.3g', '.6g', '.4e', '.2e']
+FLOAT_FORMATS = ['.0f', '.1f', '.3f', '.3f', '.3f', '.6f', '.8f', '.3', '.5', '.3g', '.6g', '.4e', '.2e', '.12f', '.15g', '.0e', '.10f']
+NAME_POOL = [b'DEPT', b'TIME', b'GR', b'TENS', b'CALI', b'RHOB', b'NPHI', b'SP', b'ILD', b'DT', b'TDEP', b'ETIM']     # names shared between passes / files
+
+
+class History:
+    """The caller's objects of the previous conversion: a batch of conversions shares one selector object and one channel set
+    (that is how the directory drivers call the converters), so a share of the conversions is given the *same objects* again."""
+    def __init__(self):
+        self.sel = None       # (kind, args, object)
+        self.chans = None     # (list, set object)
+
+    def selector(self, rng, S, kind, args, ok):
+        if self.sel is not None and rng.random() < 0.3 and ok(self.sel[0], self.sel[1]):
+            return self.sel[0], self.sel[1], self.sel[2], True
+        obj = make_selector(S, kind, args)
+        self.sel = (kind, args, obj)
+        return kind, args, obj, False
+
+    def channels(self, rng, make):
+        if self.chans is not None and rng.random() < 0.3:
+            return self.chans[0], self.chans[1], True
+        chans = make()
+        self.chans = (chans, set(chans))
+        return chans, self.chans[1], False
 
 
 def print_tol(fmt, v):
@@ -394,8 +426,27 @@ def run_rp66v1(ctx, p, audit):
     from tdv.gen import dlis, dlis_convertible
     rec, rng = ctx.rec, ctx.rng
     tmp = os.environ['VERIF_SHARD_TMP']
+    hist = History()
     for si in range(p['sources']):
-        lrs, model = dlis_convertible.convertible_file(rng, max_frames=rng.choice([6, 20, 45]))
+        # a third of the sources draw their channel / frame type names from a small pool: the same names then recur in other passes
+        # and other files (as DEPT / GR / TENS do in practice), sometimes as the X axis of one pass and an ordinary channel of another
+        pool = NAME_POOL if rng.random() < 0.3 else None
+        special = {7: 'long', 23: 'many-pass'}.get(si % 50)
+        if special == 'long':
+            # a log longer than any per-call buffer and than one byte of frame number: 128 .. 1100 frames, few channels
+            for _ in range(30):
+                lrs, model = dlis_convertible.convertible_file(rng, max_frames=rng.choice([200, 400, 1100]), max_logical_files=1, max_types=1,
+                                                               max_channels=3, name_pool=pool)
+                if max(len(ft.frames) for lf in model.logical_files for ft in lf.frame_types) >= 128:
+                    break
+        elif special == 'many-pass':
+            # more than ten log passes in one file (output names and result counts with two digits)
+            for _ in range(80):
+                lrs, model = dlis_convertible.convertible_file(rng, max_frames=5, max_logical_files=12, max_types=3, max_channels=3, name_pool=pool)
+                if sum(len(lf.frame_types) for lf in model.logical_files) >= 11:
+                    break
+        else:
+            lrs, model = dlis_convertible.convertible_file(rng, max_frames=rng.choice([6, 20, 45]), name_pool=pool)
         data, phys = dlis.write_file_safe(rng, lrs)
         src = os.path.join(tmp, 's%d.dlis' % si)
         with open(src, 'wb') as f:
@@ -409,19 +460,22 @@ def run_rp66v1(ctx, p, audit):
                     break
             else:
                 kind, args = 'slice', (None, None, None)
+            kind, args, sel_obj, sel_again = hist.selector(rng, S, kind, args, lambda k_, a_: k_ == 'sample' or all(
+                len(range(len(ft.frames))[slice(*a_)]) >= 1 for _, ft in passes))
             lfi0, ft0 = rng.choice(passes)
             names0 = [c.ident for c in ft0.channels]
-            chans = random_channels(rng, names0, names0[0], [c.ident for _, ft in passes for c in ft.channels])
+            chans, chan_set, set_again = hist.channels(rng, lambda: random_channels(rng, names0, names0[0], [c.ident for _, ft in passes for c in ft.channels]))
             method = rng.choice(['first', 'first', 'mean', 'median', 'min', 'max'])
-            width = rng.choice([8, 12, 16, 16, 20, 24])
+            width = rng.choice([8, 12, 16, 16, 20, 24] * 3 + [2, 4, 6, 32])
             ffmt = rng.choice(FLOAT_FORMATS)
             out_dir = os.path.join(tmp, 'o%d_%d' % (si, k))
             path_out = os.path.join(out_dir, 's%d.dlis' % si)
             w = {'format': 'rp66v1', 'selector': '%s%s' % (kind, args), 'selector_kind': kind, 'selector_args': list(args), 'channels': chans,
-                 'reduction': method, 'field_width': width, 'float_format': ffmt, 'source': data if len(data) < 3000 else None, 'layout': phys.layout}
+                 'reduction': method, 'field_width': width, 'float_format': ffmt, 'source': data if len(data) < 3000 else None, 'layout': phys.layout,
+                 'history': {'selector_object_of_previous_conversion': sel_again, 'channel_set_object_of_previous_conversion': set_again}}
             audit.paths, audit.active = [], True
             try:
-                res = ToLAS.single_rp66v1_file_to_las(src, method, path_out, make_selector(S, kind, args), set(chans), width, ffmt)
+                res = ToLAS.single_rp66v1_file_to_las(src, method, path_out, sel_obj, chan_set, width, ffmt)
             except Exception as e:
                 audit.active = False
                 rec.mon('one_las_per_log_pass')
@@ -476,7 +530,12 @@ def run_rp66v1(ctx, p, audit):
             rec.case((data, kind, args, tuple(chans), method, width, ffmt), nt,
                      classes=['rp66v1', 'selector:' + kind, 'channels:' + ('all' if not chans else 'subset'), 'reduction:' + method] +
                              (['multi-dimensional'] if any(c.count > 1 for _, ft in passes for c in ft.channels) else []) +
-                             (['multi-pass'] if len(passes) > 1 else []),
+                             (['multi-pass'] if len(passes) > 1 else []) + (['passes>=11'] if len(passes) >= 11 else []) +
+                             (['frames>=128'] if any(len(ft.frames) >= 128 for _, ft in passes) else []) +
+                             (['frames>=1024'] if any(len(ft.frames) >= 1024 for _, ft in passes) else []) +
+                             (['names-from-shared-pool'] if pool else []) +
+                             (['history:selector-object-reused'] if sel_again else []) + (['history:channel-set-object-reused'] if set_again else []) +
+                             (['width<=6'] if width <= 6 else []) + (['selector:bound-beyond-2^31'] if kind == 'slice' and any(isinstance(a_, int) and abs(a_) >= 2 ** 31 for a_ in args) else []),
                      sample={'format': 'rp66v1', 'passes': [(lfi, ft.name[2].decode('ascii'), len(ft.frames), [c.ident for c in ft.channels]) for lfi, ft in passes],
                              'selector': w['selector'], 'channels': chans, 'reduction': method, 'width': width, 'float_format': ffmt})
             _rm(out_dir)
@@ -489,9 +548,14 @@ def run_bit(ctx, p, audit):
     from tdv.gen import bit as gbit
     rec, rng = ctx.rec, ctx.rng
     tmp = os.environ['VERIF_SHARD_TMP']
+    hist = History()
     for si in range(p['sources'] * 2):
         for _ in range(50):
-            data, model = gbit.random_file(rng, max_block=rng.choice([4, 16, 64]), max_blocks=rng.choice([2, 4, 8]))
+            if si % 50 == 23:
+                # more than ten log passes in one file (the output names carry the pass number)
+                data, model = gbit.random_file(rng, passes=rng.choice([11, 12, 14]), max_block=8, max_blocks=2)
+            else:
+                data, model = gbit.random_file(rng, max_block=rng.choice([4, 16, 64]), max_blocks=rng.choice([2, 4, 8]))
             if all(pm.frames >= 1 for pm in model.passes):
                 break
         else:
@@ -508,18 +572,21 @@ def run_bit(ctx, p, audit):
                     break
             else:
                 kind, args = 'slice', (None, None, None)
+            kind, args, sel_obj, sel_again = hist.selector(rng, S, kind, args, lambda k_, a_: k_ == 'sample' or all(
+                len(range(pm.frames)[slice(*a_)]) >= 1 for pm in passes))
             names0 = ['X   '] + pm0.names_str
-            chans = random_channels(rng, names0, 'X   ', [nm for pm in passes for nm in pm.names_str])
-            width = rng.choice([12, 16, 16, 20, 24])
+            chans, chan_set, set_again = hist.channels(rng, lambda: random_channels(rng, names0, 'X   ', [nm for pm in passes for nm in pm.names_str]))
+            width = rng.choice([12, 16, 16, 20, 24] * 3 + [4, 32])
             ffmt = rng.choice(FLOAT_FORMATS[1:])
             out_dir = os.path.join(tmp, 'o%d_%d' % (si, k))
             path_out = os.path.join(out_dir, 's%d.bit' % si)
             w = {'format': 'bit', 'selector': '%s%s' % (kind, args), 'selector_kind': kind, 'selector_args': list(args), 'channels': chans,
                  'field_width': width, 'float_format': ffmt, 'source': data if len(data) < 3000 else None,
-                 'passes': [(pm.frames, pm.names_str) for pm in passes]}
+                 'passes': [(pm.frames, pm.names_str) for pm in passes],
+                 'history': {'selector_object_of_previous_conversion': sel_again, 'channel_set_object_of_previous_conversion': set_again}}
             audit.paths, audit.active = [], True
             try:
-                res = ToLAS.single_bit_path_to_las_path(src, 'first', path_out, make_selector(S, kind, args), set(chans), width, ffmt)
+                res = ToLAS.single_bit_path_to_las_path(src, 'first', path_out, sel_obj, chan_set, width, ffmt)
             except Exception as e:
                 audit.active = False
                 rec.mon('one_las_per_log_pass')
@@ -563,7 +630,9 @@ def run_bit(ctx, p, audit):
                 readable(rec, 'bit', path, ww)
             nt = ((kind == 'slice' and abs(args[2] or 1) > 1) or (kind == 'sample' and args[0] < pm0.frames)) and bool(chans)
             rec.case((data, kind, args, tuple(chans), width, ffmt), nt,
-                     classes=['bit', 'selector:' + kind, 'channels:' + ('all' if not chans else 'subset')] + (['multi-pass'] if len(passes) > 1 else []),
+                     classes=['bit', 'selector:' + kind, 'channels:' + ('all' if not chans else 'subset')] + (['multi-pass'] if len(passes) > 1 else []) +
+                             (['passes>=11'] if len(passes) >= 11 else []) + (['frames>=128'] if any(pm.frames >= 128 for pm in passes) else []) +
+                             (['history:selector-object-reused'] if sel_again else []) + (['history:channel-set-object-reused'] if set_again else []),
                      sample={'format': 'bit', 'passes': [(pm.frames, pm.names_str) for pm in passes], 'selector': w['selector'], 'channels': chans})
             _rm(out_dir)
         os.remove(src)
@@ -575,15 +644,20 @@ def run_lis(ctx, p, audit):
     from tdv.gen import lis as glis
     rec, rng = ctx.rec, ctx.rng
     tmp = os.environ['VERIF_SHARD_TMP']
+    hist = History()
     for si in range(p['sources'] * 2):
         for _ in range(20):
             lay = glis.random_layout(rng, allow_be=False)
             data, fm = glis.random_file(rng, allow_be=False, layout=lay)
-            if any(e[2] == b'CONS' for e in fm.index):
+            cons_at = [e[0] for e in fm.index if e[2] == b'CONS']
+            if cons_at and max(cons_at) > min([e[0] for e in fm.index if e[3] == 'dfsr'] or [-1]):
                 # the converter starts a new output file at every CONS table (its documented notion of a logical file); a CONS table
-                # after the data would give a header-only LAS: not the subject of this property
-                rec.cls('lis file with a CONS table skipped')
+                # after the data would give a header-only LAS: not the subject of this property.  CONS tables ahead of the first
+                # log pass only add well / parameter lines and are converted like any other file.
+                rec.cls('lis file with a CONS table after its first format specification skipped')
                 continue
+            if cons_at:
+                rec.cls('lis file with CONS tables ahead of its first log pass')
             if any(lp.indirect and any(ch.mnem.strip() == b'X' for ch in lp.channels) for lp in fm.logpasses):
                 continue    # the converter names the implied X axis 'X': a recorded channel of that name would collide
             if fm.logpasses and all(lp.total >= 1 for lp in fm.logpasses):
@@ -602,6 +676,8 @@ def run_lis(ctx, p, audit):
                     break
             else:
                 kind, args = 'slice', (None, None, None)
+            kind, args, sel_obj, sel_again = hist.selector(rng, S, kind, args, lambda k_, a_: k_ == 'sample' or (
+                (a_[2] is None or a_[2] > 0) and all(len(range(lp.total)[slice(*a_)]) >= 1 for lp in passes)))
             mn0 = [ch.mnem.decode('ascii') for ch in lp0.channels]
             chans = random_channels(rng, (['X   '] if lp0.indirect else []) + mn0, 'X   ' if lp0.indirect else mn0[0],
                                     [ch.mnem.decode('ascii') for lp in passes for ch in lp.channels])
@@ -616,7 +692,7 @@ def run_lis(ctx, p, audit):
             audit.paths, audit.active = [], True
             audit.log.take()
             try:
-                res = ToLAS.single_lis_file_to_las(src, method, path_out, make_selector(S, kind, args), set(chans), width, ffmt)
+                res = ToLAS.single_lis_file_to_las(src, method, path_out, sel_obj, set(chans), width, ffmt)
             except Exception as e:
                 audit.active = False
                 rec.mon('one_las_per_log_pass')
@@ -702,7 +778,8 @@ def run_lis(ctx, p, audit):
                 readable(rec, 'lis', path, ww)
             nt = ((kind == 'slice' and abs(args[2] or 1) > 1) or (kind == 'sample' and args[0] < lp0.total)) and bool(chans)
             rec.case((data, kind, args, tuple(chans), method, width, ffmt), nt,
-                     classes=['lis', 'selector:' + kind, 'channels:' + ('all' if not chans else 'subset'), 'x:' + ('implied' if lp0.indirect else 'explicit')],
+                     classes=['lis', 'selector:' + kind, 'channels:' + ('all' if not chans else 'subset'), 'x:' + ('implied' if lp0.indirect else 'explicit')] +
+                             (['history:selector-object-reused'] if sel_again else []),
                      sample={'format': 'lis', 'passes': w['passes'], 'selector': w['selector'], 'channels': chans})
             _rm(out_dir)
         os.remove(src)
